@@ -187,6 +187,67 @@ def perturbed_targets(rng, tints, atom):
         yield what, v
 
 
+def instantiate(q, rng=None):
+    """A molecule drawn FROM a query so that the query has a chance to match it (selection of inputs only): one element of
+    every atom's list, its charge / radical / isotope, the first allowed bond order, extra carbon / nitrogen neighbours up to the
+    requested neighbour and heteroatom counts, the requested implicit hydrogens. Returns wire ints or None."""
+    from chython.periodictable import AnyElement, AnyMetal, ListElement, QueryElement, Element
+    atoms, bonds, idx = [], [], {}
+    hyd = {}
+    for n, a in q._atoms.items():
+        if isinstance(a, AnyMetal):
+            z, iso, ch, rad = 26, 0, 0, False
+        elif isinstance(a, Element):
+            z, iso, ch, rad = a.atomic_number, a.isotope or 0, a.charge, a.is_radical
+        else:
+            if isinstance(a, ListElement):
+                z = a.atomic_numbers[0]
+            elif isinstance(a, QueryElement):
+                z = a.atomic_number
+            else:
+                z = 6
+            iso, ch, rad = (getattr(a, 'isotope', None) or 0), a.charge, a.is_radical
+        atoms.append((z, iso, ch, rad))
+        idx[n] = len(atoms)
+        hs = getattr(a, 'implicit_hydrogens', ())
+        hyd[idx[n]] = (hs or 0) if isinstance(a, Element) else (hs[0] if hs else 0)
+    for n, m, b in bond_list(q):
+        o = b.order[0] if isinstance(b.order, tuple) else b.order
+        bonds.append((idx[n], idx[m], o))
+    deg = {i: 0 for i in range(1, len(atoms) + 1)}
+    het = {i: 0 for i in deg}
+    for i, j, o in bonds:
+        if o != 8:
+            deg[i] += 1
+            deg[j] += 1
+            if atoms[j - 1][0] not in (1, 6):
+                het[i] += 1
+            if atoms[i - 1][0] not in (1, 6):
+                het[j] += 1
+    for n, a in q._atoms.items():
+        i = idx[n]
+        if isinstance(a, Element):
+            continue
+        want_n = [k for k in getattr(a, 'neighbors', ()) if k >= deg[i]]
+        want_x = [k for k in getattr(a, 'heteroatoms', ()) if k >= het[i]]
+        extra = (want_n[0] - deg[i]) if want_n else 0
+        extra_het = (want_x[0] - het[i]) if want_x else 0
+        extra = max(extra, extra_het) if want_x and not want_n else extra
+        for k in range(extra):
+            atoms.append((7 if k < extra_het else 6, 0, 0, False))
+            bonds.append((i, len(atoms), 1))
+            hyd[len(atoms)] = 3 if k >= extra_het else 2
+    ints = raw_mol_ints(atoms, bonds)
+    offs = atom_fields(ints)
+    for i, h in hyd.items():
+        ints[offs[i] + 5] = h
+    try:
+        make_target(ints)
+    except Exception:
+        return None
+    return ints
+
+
 def is_query(p):
     from chython.containers import QueryContainer
     return isinstance(p, QueryContainer)
@@ -901,6 +962,15 @@ def gen_cases(ctx):
         for tag, m in hits + misses[:1 if quick else 2]:
             for sc in scopes(m, extra=rng.random() < 0.3):
                 yield f'smarts:{s}', {'smarts': s}, tgt(m), sc
+        # a target drawn from the query itself (so that rule patterns no corpus molecule contains still fire), alone and
+        # next to another molecule
+        ii = instantiate(q)
+        if ii is not None:
+            yield f'smarts-instance:{s}', {'smarts': s}, ii, None
+            try:
+                yield f'smarts-instance:{s}', {'smarts': s}, tgt(union([make_target(ii), rng.choice(hand)[1]])), None
+            except Exception:
+                pass
     # D. multi-component patterns and targets
     multi_p = [s for s, _ in frags if '.' in s]
     for _ in range(30 if quick else 200):
@@ -1030,7 +1100,21 @@ def gen_cases(ctx):
             continue
         if is_query(obj) and has_query_stereo(obj):
             continue
-        tag0, m0 = rng.choice(pool)
+        # a target the fresh pattern really matches (selection only), so that its first search yields mappings
+        def hits(pat, cands):
+            kw = {'_cython': False} if is_query(pat) else {}
+            for cand in cands:
+                try:
+                    if next(iter(pat.get_mapping(cand[1], **kw)), None) is not None:
+                        return cand
+                except Exception:
+                    pass
+            return None
+        h0 = hits(obj, rng.sample(pool, min(len(pool), 15)))
+        if h0 is None:
+            ii = instantiate(obj)
+            h0 = ('instance', make_target(ii)) if ii is not None else rng.choice(pool)
+        tag0, m0 = h0
         steps = [['new', base], ['use', wire.mol_to_ints(m0)]]
         try:
             steps += rand_tail(obj, query)
@@ -1043,8 +1127,25 @@ def gen_cases(ctx):
             continue
         if len(cur._atoms) == 0 or len(cur._atoms) > 14:
             continue
-        tag1, m1 = rng.choice(pool)
-        for tm in (m0, union([m0, m1]) if len(m0) + len(m1) <= 40 else m1):
+        # targets: the one used before, and one the FINAL pattern matches if such a target can be assembled from the pool
+        final_hit = hits(cur, rng.sample(pool, min(len(pool), 10)))
+        tag1, m1 = final_hit or rng.choice(pool)
+        finals = [m0, m1]
+        if len(m0) + len(m1) <= 40:
+            finals.append(union([m0, m1]))
+        joined = [st[1] for st in steps if st[0] in ('or', 'ior', 'union')]
+        if joined:   # the target used before plus a molecule the joined operand matches
+            try:
+                jp = make_pattern(joined[-1])
+                oh = hits(jp, rng.sample(pool, min(len(pool), 15)))
+                if oh is None:
+                    ii = instantiate(jp)
+                    oh = ('instance', make_target(ii)) if ii is not None else None
+            except Exception:
+                oh = None
+            if oh is not None and len(m0) + len(oh[1]) <= 40:
+                finals.append(union([m0, oh[1]]))
+        for tm in finals:
             yield 'history:pattern', {'hist': steps}, tgt(tm), None
     # target objects with a past: searched, then edited
     for i in range(20 if quick else 150):
@@ -1529,6 +1630,28 @@ def neighbourhood(rng, inp, k=12):
     except Exception:
         return
     acc = bool(inp.get('accelerated'))
+    if isinstance(inp['pattern'], dict) and 'hist' in inp['pattern']:
+        # the object's past may only show on targets its earlier self matched: the targets it was used on, then a fixed pool
+        insts = []
+        for st in inp['pattern']['hist']:
+            if st[0] == 'use':
+                yield {'pattern': inp['pattern'], 'target': st[1], 'scope': None, 'accelerated': acc}
+            if st[0] in ('new', 'or', 'ior', 'union') and isinstance(st[1], dict):
+                try:
+                    ii = instantiate(make_pattern(st[1]))
+                except Exception:
+                    ii = None
+                if ii is not None:
+                    insts.append(ii)
+                    yield {'pattern': inp['pattern'], 'target': ii, 'scope': None, 'accelerated': acc}
+        if len(insts) > 1:
+            try:
+                yield {'pattern': inp['pattern'], 'target': wire.mol_to_ints(union([make_target(x) for x in insts])),
+                       'scope': None, 'accelerated': acc}
+            except Exception:
+                pass
+        for _, hm in molgen.handmade()[:40]:
+            yield {'pattern': inp['pattern'], 'target': wire.mol_to_ints(hm), 'scope': None, 'accelerated': acc}
     if isinstance(inp['target'], dict):   # a target with a history: first the same final structure without the history
         yield {'pattern': inp['pattern'], 'target': wire.mol_to_ints(t), 'scope': inp.get('scope'), 'accelerated': acc}
     for _ in range(k if len(t) > 2 else 0):
